@@ -129,6 +129,33 @@ def check_vector(v):
                                want.decode("latin-1")[:300], (got_.decode("latin-1")[:300] if got_ is not None else str(o_)[:300])))
                 break
         if len(rows) >= 2:
+            # the file read lazily in chunks by ONE reader; a column of the first chunk is assigned (to itself): the chunks written one after
+            # the other through one writer are still the canonical text (a chunk's replaced columns are its own)
+            def chunked_assign():
+                lazy_source()
+                rd = bnp.open(os.path.join(d, "lsrc" + suffix), **kw)
+                try:        # about one entry per chunk; a size too small for an entry may be refused (C01), which is not this clause's business
+                    chunks = list(rd.read_chunks(min_chunk_size=len(want) // len(rows) + 1))
+                except Exception:      # noqa
+                    return None
+                finally:
+                    rd.close()
+                if len(chunks) < 2:
+                    return None
+                names = [f_.name for f_ in _dc.fields(chunks[0]) if f_.name not in ("info", "genotypes", "extra", "atributes")]
+                for nm in names[:2]:
+                    setattr(chunks[0], nm, getattr(chunks[0], nm))
+                pc = os.path.join(d, "chunked_assign" + suffix)
+                with bnp.open(pc, "w", **kw) as w:
+                    for c_ in chunks:
+                        w.write(c_)
+                return open(pc, "rb").read()
+            o_ = outcome(chunked_assign)
+            if o_[0] == "ok" and o_[1] is None:
+                pass
+            elif o_ != ("ok", want):
+                extras.append(("lazily read chunks of one reader, a column of the first assigned to itself, are not written as the canonical text",
+                               want.decode("latin-1")[:300], (o_[1].decode("latin-1")[:300] if o_[0] == "ok" else str(o_)[:300])))
             whole, other = lazy_source(), lazy_source()
             sel = other[1:]
             p1, p2 = os.path.join(d, "join_one" + suffix), os.path.join(d, "join_two" + suffix)
